@@ -14,6 +14,10 @@ import Ptn.C19.Special
   fork m:<shape> s<i>:<shape> …     → same, ids `M<i>`, `S<i>.<j>`
   forkconst <d> <width> <height> <bd> → same (`constant_ftps`)
   binary <nphys> <bd> <d>           → same, ids `V<level>.<pos>`, `P<k>` (`generate_binary_ttns`)
+  starl <cshape> <c>@<k>:<shape> …  → as `star`, every call with its `parent_leg` (`k` a number or `-` for `None`)
+  forkl m@<k>:<shape> s<i>@<k>:<shape> … → as `fork`, with `parent_leg`
+  mpsdirect <n> <r> <p0> … | <step> … → as `mps`: `add_root` of site `r`, then the direct calls `L` / `Lf`
+                                       (`attach_node_left_end`, `f` = `final=True`) and `R` (`attach_node_right_end`)
 -/
 namespace Ptn.C19
 
@@ -137,6 +141,39 @@ def parseForkCall (t : String) : Option ForkCall :=
       else none
   | _ => none
 
+def parseLegOpt (t : String) : Option (Option Nat) :=
+  if t = "-" then some none else t.toNat?.map some
+
+def parseStarCallL (t : String) : Option StarCallL :=
+  match t.splitOn ":" with
+  | [a, b] =>
+    match a.splitOn "@" with
+    | [ci, k] => do
+      let c ← ci.toNat?
+      let pl ← parseLegOpt k
+      let sh ← parseShape b
+      pure (c, sh, pl)
+    | _ => none
+  | _ => none
+
+def parseForkCallL (t : String) : Option ForkCallL :=
+  match t.splitOn ":" with
+  | [a, b] =>
+    match a.splitOn "@", parseShape b with
+    | [w, k], some sh =>
+      match parseLegOpt k with
+      | none => none
+      | some pl =>
+        if w = "m" then some (.main sh pl)
+        else if w.startsWith "s" then (w.drop 1).toNat?.map fun i => .sub i sh pl
+        else none
+    | _, _ => none
+  | _ => none
+
+def parseStep (t : String) : Option (Bool × Bool) :=
+  if t = "L" then some (true, false) else if t = "Lf" then some (true, true)
+  else if t = "R" then some (false, false) else none
+
 def handle (args : List String) : String :=
   match args with
   | "star" :: cs :: calls =>
@@ -147,6 +184,22 @@ def handle (args : List String) : String :=
     match a.toNat?, b.toNat?, c.toNat? with
     | some d, some l, some ch => showGNodes showStarId ((starConst d l ch).map (·.nodes))
     | _, _, _ => "bad-op"
+  | "starl" :: cs :: calls =>
+    match parseShape cs, calls.mapM parseStarCallL with
+    | some cshape, some cl => showGNodes showStarId ((starRunL cshape cl).map (·.nodes))
+    | _, _ => "bad-op"
+  | "forkl" :: calls =>
+    match calls.mapM parseForkCallL with
+    | some cl => showGNodes showForkId ((forkRunL cl).map (·.nodes))
+    | none => "bad-op"
+  | "mpsdirect" :: a :: b :: rest =>
+    match splitBar rest with
+    | some (ps, steps) =>
+      match a.toNat?, b.toNat?, parseNats ps, steps.mapM parseStep with
+      | some n, some r, some pl, some sl =>
+        if pl.length ≠ n then "bad-op" else showMPT (directRun n r (fun i => pl.getD i 0) sl)
+      | _, _, _, _ => "bad-op"
+    | none => "bad-op"
   | "fork" :: calls =>
     match calls.mapM parseForkCall with
     | some cl => showGNodes showForkId ((forkRun cl).map (·.nodes))
